@@ -718,6 +718,7 @@ func runC02(c *Ctx) {
 	ruleForwardAll(c, p, "C02.forward-all")
 	ruleHeaderPerBlock(c, p, "C02.header-per-block")
 	ruleInferByName(c, p, "C02.infer-name")
+	ruleSpanContextUsed(c, p, "C02.span-ctx")
 	ruleExternalPresence(c, p, "C02.external-presence")
 	if roles := resolveDo(c, p); roles != nil {
 		ruleDiscard(c, p, roles, "C02")
